@@ -254,8 +254,30 @@ func (x *Exec) evalBinary(n *SBinary, env *Env) Val {
 	return Val{}
 }
 
+// groundFacts assumes well-typedness facts (ranges, allocation frontier) for a
+// ground spec term read from the heap in state st. Terms under a quantifier
+// (mentioning a bound variable) are skipped.
+func (x *Exec) groundFacts(v Val, st *State) Val {
+	if v.GT == nil || strings.Contains(v.T, "!q") || x.noFacts {
+		return v
+	}
+	e := x.enc
+	brk := ""
+	if _, ok := st.H["brk"]; ok || st == x.entry {
+		brk = e.heapGet(st, "brk")
+	}
+	for _, f := range e.typeFacts(v.T, v.GT, brk, 2) {
+		e.assume(x.guard, f)
+	}
+	return v
+}
+
 // selectField selects a named field from a struct value or through a pointer.
 func (x *Exec) selectField(v Val, f string, st *State) Val {
+	return x.groundFacts(x.selectField1(v, f, st), st)
+}
+
+func (x *Exec) selectField1(v Val, f string, st *State) Val {
 	e := x.enc
 	if v.Sort == "Slice" && f == "ref" {
 		return Val{T: fmt.Sprintf("(sref %s)", v.T), Sort: "Int"}
@@ -290,7 +312,7 @@ func (x *Exec) selectField(v Val, f string, st *State) Val {
 			for j := 0; j < st2.NumFields(); j++ {
 				if st2.Field(j).Name() == f {
 					inner := Val{T: fmt.Sprintf("(%s %s)", si.Fields[i], v.T), Sort: si.FSorts[i], GT: ft}
-					return x.selectField(inner, f, st)
+					return x.selectField1(inner, f, st)
 				}
 			}
 		}
@@ -300,6 +322,10 @@ func (x *Exec) selectField(v Val, f string, st *State) Val {
 }
 
 func (x *Exec) indexVal(v, i Val, st *State) Val {
+	return x.groundFacts(x.indexVal1(v, i, st), st)
+}
+
+func (x *Exec) indexVal1(v, i Val, st *State) Val {
 	e := x.enc
 	if v.Sort == "Slice" {
 		if v.GT == nil {
@@ -439,6 +465,29 @@ func (x *Exec) evalCall(n *SCall, env *Env) Val {
 		}
 		dom, _, _, _ := e.mapKeysFor(mt)
 		return Val{T: fmt.Sprintf("(select (select %s %s) %s)", e.heapGet(env.st, dom), m.T, k.T), Sort: "Bool"}
+	case "addr": // addr(v): the address of an address-taken local or captured variable
+		id, ok := n.Args[0].(*SIdent)
+		if !ok || x.fn == nil {
+			x.fail("addr() needs a variable name")
+		}
+		if v, ok := env.binders["&"+id.Name]; ok {
+			return v
+		}
+		for _, fv := range x.fn.FreeVars {
+			if fv.Name() == id.Name {
+				return x.materialize(x.val(fv))
+			}
+		}
+		for _, b := range x.fn.Blocks {
+			for _, in := range b.Instrs {
+				if al, ok := in.(*ssa.Alloc); ok && al.Comment == id.Name {
+					if v, ok := x.vals[al]; ok {
+						return x.materialize(v)
+					}
+				}
+			}
+		}
+		x.fail("addr(%s): no such address-taken variable", id.Name)
 	case "arr": // arr(s): the backing array of a slice as an SMT array
 		v := arg(0)
 		if v.Sort != "Slice" || v.GT == nil {
